@@ -91,9 +91,6 @@ Fixpoint edges (t : rtree) : list (nat * nat) :=
 Definition adjacent (t : rtree) (a b : nat) : Prop :=
   In (a, b) (edges t) \/ In (b, a) (edges t).
 
-Definition adjacentb (t : rtree) (a b : nat) : bool :=
-  existsb (fun e => (Nat.eqb (fst e) a && Nat.eqb (snd e) b) || (Nat.eqb (fst e) b && Nat.eqb (snd e) a)) (edges t).
-
 (* consecutive entries of l are related by R *)
 Fixpoint chain {A : Type} (R : A -> A -> Prop) (l : list A) : Prop :=
   match l with
@@ -113,9 +110,6 @@ Fixpoint leaves (t : rtree) : list nat :=
 (* (identifier, depth) in pre-order, the root of t at depth d *)
 Fixpoint depths (d : nat) (t : rtree) : list (nat * nat) :=
   match t with RNode i cs => (i, d) :: flat_map (depths (S d)) cs end.
-
-Fixpoint height (t : rtree) : nat :=
-  match t with RNode _ cs => fold_right Nat.max 0 (map (fun c => S (height c)) cs) end.
 
 (* association-list lookup (first binding) *)
 Fixpoint assoc (k : nat) (al : list (nat * nat)) : option nat :=
